@@ -41,6 +41,25 @@ def gen_history(r: random.Random):
     steps = []
     held = 0
     exp = cfg["keepalive_expiry"]
+    if r.random() < 0.3:
+        # a motif: the pool holds exactly as many idle connections as it may keep, one of them expires (or is closed by
+        # the server), and in the same pass another connection goes idle - one is reaped, none is surplus
+        k = r.choice([1, 2])
+        cfg["max_keepalive"] = k
+        cfg["n_origins"] = max(cfg["n_origins"], k + 1)
+        if cfg["max_connections"] is not None:
+            cfg["max_connections"] = max(cfg["max_connections"], k + 1)
+        if r.random() < 0.25:
+            steps += [["request", o] for o in range(k)] + [["refused"]] + [["request", o] for o in range(k)]
+        else:
+            steps += [["request", 0]]
+            if exp and k == 2:
+                steps += [["advance", exp / 2], ["request", 1]]  # the second idle connection is younger
+            elif k == 2:
+                steps += [["request", 1]]
+            steps += [["hold", k]]
+            steps.append(["advance", exp / 2 + 0.001] if exp and k == 2 else ["advance", exp + 0.001] if exp else ["server_close", 0])
+            steps += [["release", 0], ["request", k]] + ([["request", 1]] if k == 2 else [])
     cap = cfg["max_connections"] or 4
     for _ in range(r.randint(5, 40)):
         x = r.random()
@@ -72,8 +91,11 @@ def gen_history(r: random.Random):
             else:
                 d = r.choice([0.0, 0.001, 0.3, 7.0])
             steps.append(["advance", d])
-        else:
+        elif x < 0.96:
             steps.append(["server_close", r.randrange(cfg["n_origins"])])
+        elif free:
+            # a request to an origin where nothing listens: the failed connection must not cost any other one its place
+            steps.append(["refused"])
     return cfg, steps
 
 
@@ -119,7 +141,7 @@ async def run_history(flavor, cfg, steps, cnt, v, sigs_out):
     api = API(flavor, pool, net)
     m = Model(cfg, net, pool)
     held = []  # (cm, transport)
-    drained = set()
+    drained = []  # the response objects themselves (kept alive: an id() could be re-used by a later response)
     sit = set()
     maxc = cfg["max_connections"] if cfg["max_connections"] is not None else 10 ** 9
     maxk = min(maxc, cfg["max_keepalive"] if cfg["max_keepalive"] is not None else 10 ** 9)
@@ -210,17 +232,26 @@ async def run_history(flavor, cfg, steps, cnt, v, sigs_out):
             if budget_evict and idle0:
                 cnt["eviction_situations"] += 1
                 sit.add("eviction")
+        elif kind == "refused":
+            seqno[0] += 1
+            CALL.set(f"s{seqno[0]}")
+            out = await guarded(flavor, lambda: api.request("GET", f"{scheme}://nowhere.test/x"))
+            cnt["refused_connects"] = cnt.get("refused_connects", 0) + 1
+            if out.kind != "exc" or not isinstance(out.exc, httpcore.ConnectError):
+                v("refused-connect-outcome", f"request to an origin where nothing listens: {out!r}", ctx(i, step))
+            # making room for the attempt at the connection limit is a legitimate reason to close an idle connection
+            budget_evict = 1 if len(pooled0) >= maxc else 0
         elif kind == "drain":
             cm, t, resp = held[step[1]]
-            if id(resp) not in drained:
-                drained.add(id(resp))
+            if not any(x is resp for x in drained):
+                drained.append(resp)
                 out = await guarded(flavor, lambda: api.read(resp))
             budget_evict = 0
         elif kind == "release":
             cm, t, resp = held.pop(step[1])
 
             async def rel():
-                if id(resp) not in drained:
+                if not any(x is resp for x in drained):
                     await api.read(resp)  # finish the exchange so that the connection can go idle
                 await api.close(cm)
             out = await guarded(flavor, rel)
@@ -246,7 +277,10 @@ async def run_history(flavor, cfg, steps, cnt, v, sigs_out):
         idle_after = {t for t in pooled1 if m.is_idle(t)}
         # surplus budget: how many idle connections had to go to respect the keep-alive limit
         became_idle = {t for t in idle_after | set(closed_now) if m.is_idle(t) and t not in idle0}
-        total_idle_candidates = len(idle0) + len(became_idle)
+        # (a connection that is reaped anyway - strictly expired, or an HTTP/1.1 one the server has closed - does not
+        # count: after it is gone the others may be within the limit)
+        reaped = {t for t in idle0 if m.expiry_state(t, now) == "expired" or (t in m.server_closed and not h2)}
+        total_idle_candidates = len(idle0 - reaped) + len(became_idle)
         surplus_budget = max(0, total_idle_candidates - maxk)
         need_budget = [t for t in idle_closed if t not in closed_allow_free]
         also_new_idle_closed = [t for t in closed_now if t in became_idle]
@@ -257,7 +291,11 @@ async def run_history(flavor, cfg, steps, cnt, v, sigs_out):
             v("r4:idle-connection-closed-without-reason",
               f"step {step}: idle transports {need_budget + also_new_idle_closed} were closed; not expired, not closed by "
               f"the server, keep-alive surplus budget {surplus_budget} (idle {total_idle_candidates}, limit "
-              f"{cfg['max_keepalive']}), eviction budget {budget_evict}", ctx(i, step))
+              f"{cfg['max_keepalive']}), eviction budget {budget_evict}",
+              ctx(i, step, {"now": now, "now_after": net.now(), "idle_since": {str(t): m.idle_since.get(t) for t in idle0},
+                            "server_closed": sorted(m.server_closed), "closed_now": closed_now, "idle_before": sorted(idle0),
+                            "pool": [c.info() for c in pool.connections],
+                            "closes": [{k: str(x) for k, x in e.items()} for e in net.events[ev0:] if e["ev"] == "close"]}))
         # R2: idle bound once the operation completed
         cnt["r2_checks"] += 1
         n_idle = sum(1 for c in pool.connections if c.is_idle() and not c.is_closed())
